@@ -455,3 +455,110 @@ Proof.
   exists [LF], [[ascii_of_nat 120; CR]; [LF]], [[ascii_of_nat 120; CR; LF]].
   split; [discriminate|]. split; [reflexivity|]. vm_compute. discriminate.
 Qed.
+
+(* ------------------------------------------------------------------ repaired IO layer (incremental decoding) *)
+Lemma ends_cr_cons c s : s <> [] -> ends_cr (c :: s) = ends_cr s.
+Proof. destruct s; [congruence|reflexivity]. Qed.
+
+Lemma ends_cr_app x y : y <> [] -> ends_cr (x ++ y) = ends_cr y.
+Proof.
+  intros Hy. induction x as [|c x IH]; cbn [app]; auto.
+  rewrite ends_cr_cons; auto. destruct x; cbn; [auto|discriminate].
+Qed.
+
+Lemma ends_cr_spec s : ends_cr s = true -> s = removelast s ++ [CR].
+Proof.
+  induction s as [|c s IH]; [discriminate|]. destruct s as [|c2 s].
+  - cbn. intros H. apply Ascii.eqb_eq in H. now subst.
+  - intros H. rewrite ends_cr_cons in H by discriminate. specialize (IH H).
+    change (removelast (c :: c2 :: s)) with (c :: removelast (c2 :: s)). cbn [app]. now rewrite <- IH.
+Qed.
+
+Definition starts_lf (b : text) : bool := match b with c :: _ => Ascii.eqb c LF | [] => false end.
+
+Lemma nl_translate_cons c s : nl_translate (c :: s) =
+  if Ascii.eqb c CR then
+    match s with
+    | c2 :: s'' => if Ascii.eqb c2 LF then LF :: nl_translate s'' else LF :: nl_translate s
+    | [] => [LF]
+    end
+  else c :: nl_translate s.
+Proof. reflexivity. Qed.
+
+(* translation distributes over a cut unless the cut separates a CR from the LF that follows it *)
+Lemma nl_translate_app : forall a b, ends_cr a = false \/ starts_lf b = false ->
+  nl_translate (a ++ b) = nl_translate a ++ nl_translate b.
+Proof.
+  intros a b. revert a. apply (text_ind_len (fun a => ends_cr a = false \/ starts_lf b = false ->
+     nl_translate (a ++ b) = nl_translate a ++ nl_translate b)).
+  intros a IH H. destruct a as [|c a']; [reflexivity|].
+  assert (Hsub : forall t, length t < length (c :: a') -> (t = [] \/ ends_cr t = ends_cr (c :: a')) ->
+                 nl_translate (t ++ b) = nl_translate t ++ nl_translate b).
+  { intros t L [->|E]; [reflexivity|]. apply IH; auto. rewrite E. exact H. }
+  cbn [app]. rewrite !nl_translate_cons. destruct (Ascii.eqb c CR) eqn:EC.
+  - destruct a' as [|c2 a''].
+    + cbn [app]. destruct H as [H|H]; [cbn [ends_cr] in H; congruence|].
+      destruct b as [|c2 b']; [reflexivity|]. unfold starts_lf in H. rewrite H. reflexivity.
+    + cbn [app]. destruct (Ascii.eqb c2 LF).
+      * cbn [app]. f_equal. apply Hsub; [cbn; lia|].
+        destruct a''; [now left|right]. now rewrite (ends_cr_cons c), (ends_cr_cons c2) by discriminate.
+      * cbn [app]. f_equal. apply (Hsub (c2 :: a'')); [cbn; lia|]. right. now rewrite (ends_cr_cons c) by discriminate.
+  - cbn [app]. f_equal. apply Hsub; [cbn; lia|].
+    destruct a'; [now left|right]. now rewrite (ends_cr_cons c) by discriminate.
+Qed.
+
+Lemma strip_cr_app x y : y <> [] -> strip_cr (x ++ y) = x ++ strip_cr y.
+Proof.
+  intros Hy. unfold strip_cr. rewrite ends_cr_app by auto. destruct (ends_cr y); auto. now apply removelast_app.
+Qed.
+
+Lemma starts_lf_strip_cr t : starts_lf (strip_cr (CR :: t)) = false.
+Proof.
+  unfold strip_cr. destruct t as [|c t].
+  - cbn. destruct (Ascii.eqb CR CR); reflexivity.
+  - rewrite ends_cr_cons by discriminate. destruct (ends_cr (c :: t)); reflexivity.
+Qed.
+
+Lemma decode_all_cons pend r rs : decode_all pend (r :: rs) =
+  (fst (decode_all (fst (nl_inc pend r)) rs), snd (nl_inc pend r) :: snd (decode_all (fst (nl_inc pend r)) rs)).
+Proof. cbn [decode_all]. destruct (nl_inc pend r) as [p1 o]. cbn [fst snd]. now destruct (decode_all p1 rs). Qed.
+
+Lemma decode_all_concat : forall raws pend,
+  concat (snd (decode_all pend raws)) = nl_translate (strip_cr ((if pend then [CR] else []) ++ concat raws)) /\
+  fst (decode_all pend raws) = ends_cr ((if pend then [CR] else []) ++ concat raws).
+Proof.
+  induction raws as [|r rs IH]; intros pend.
+  - cbn [decode_all concat fst snd]. rewrite app_nil_r. destruct pend; split; reflexivity.
+  - rewrite decode_all_cons. cbn [fst snd concat]. unfold nl_inc. cbn [fst snd].
+    set (s := (if pend then [CR] else []) ++ r).
+    rewrite (app_assoc _ r (concat rs)). fold s.
+    destruct (IH (ends_cr s)) as [IH1 IH2]. rewrite IH1, IH2. clear IH1 IH2 IH.
+    destruct (ends_cr s) eqn:E.
+    + pose proof (ends_cr_spec s E) as Hs.
+      assert (Ss : strip_cr s = removelast s) by (unfold strip_cr; now rewrite E).
+      rewrite Ss.
+      assert (Es : s ++ concat rs = removelast s ++ CR :: concat rs) by (rewrite Hs at 1; now rewrite <- app_assoc).
+      rewrite Es. cbn [app]. split.
+      * rewrite strip_cr_app by discriminate.
+        rewrite nl_translate_app; [reflexivity|]. right. apply starts_lf_strip_cr.
+      * now rewrite ends_cr_app by discriminate.
+    + assert (Ss : strip_cr s = s) by (unfold strip_cr; now rewrite E).
+      rewrite Ss. cbn [app]. destruct (concat rs) as [|c t] eqn:Ec.
+      * rewrite (app_nil_r s), Ss. cbn [strip_cr ends_cr nl_translate]. rewrite app_nil_r. auto.
+      * split.
+        -- rewrite strip_cr_app by discriminate. rewrite nl_translate_app; auto.
+        -- now rewrite ends_cr_app by discriminate.
+Qed.
+
+(* with incremental decoding the source is chunk-independent at the level of the bytes written: records and
+   buffer are those of one poll over the translated whole text (a final CR still waits for its successor) *)
+Theorem textmode_fixed_chunk_independent d raws : d <> [] ->
+  run_chunks_textmode_fixed d raws = poll d [] (nl_translate (strip_cr (concat raws))).
+Proof.
+  intros Hd. unfold run_chunks_textmode_fixed. rewrite chunk_independent by auto.
+  now rewrite (proj1 (decode_all_concat raws false)).
+Qed.
+
+Theorem textmode_fixed_chunk_independent2 d raws raws' : d <> [] -> concat raws = concat raws' ->
+  run_chunks_textmode_fixed d raws = run_chunks_textmode_fixed d raws'.
+Proof. intros Hd E. rewrite !textmode_fixed_chunk_independent, E; auto. Qed.
